@@ -17,6 +17,7 @@ global size_of usize == 8;
 //@item src/pwl/impl_infeasible_elim.rs | struct PerformanceCounter | no-debug
 
 //@include prelude/lp_oracle_spec.rs
+//@include prelude/reach_spec.rs
 
 impl Polytope {
     // LP feasibility query (C10, external solver): any answer
@@ -79,6 +80,113 @@ pub fn any_contained(poly: &Polytope, wit: &Vec<Array1<f64>>) -> (r: bool)
         i += 1;
     }
     false
+}
+
+
+// ---------------------------------------------------------------- the path polytope for real (K = 2), and what an Infeasible verdict of is_edge_feasible means
+// the half-space of the edge leaving a decision with predicate f under `label`: label 1: every row holds; label 0: every row is violated or tight
+pub open spec fn hs_row(f: AffFunc, label: usize, j: int, x: V) -> bool {
+    if label == 1 { f.row_sat(j, x) } else { dotp(f.mat.m()[j], x, x.len() as int) >= f.bias.v()[j] }
+}
+pub open spec fn hs_sat(f: AffFunc, label: usize, x: V) -> bool {
+    forall|j: int| 0 <= j < f.mat.nrows() ==> #[trigger] hs_row(f, label, j, x)
+}
+pub open spec fn hs_poly(f: AffFunc, label: usize, q: Polytope) -> bool {
+    let s = if label == 1 { 1real } else { 0real - 1real };
+    q.mat.nrows() == f.mat.nrows() && q.mat.ncols() == f.mat.ncols() && q.mat.m() == mscale(f.mat.m(), s) && q.bias.v() == vscale(f.bias.v(), s)
+}
+pub proof fn lemma_hs_poly_sat(f: AffFunc, label: usize, q: Polytope, x: V)
+    requires hs_poly(f, label, q), f.ok(), x.len() == f.mat.ncols()
+    ensures q.sat(x) <==> hs_sat(f, label, x)
+{
+    broadcast use axiom_array2_shape;
+    let s = if label == 1 { 1real } else { 0real - 1real };
+    assert forall|i: int| 0 <= i < f.mat.nrows() implies (q.row_sat(i, x) <==> hs_row(f, label, i, x)) by {
+        lemma_dotp_scale_left(f.mat.m()[i], s, x, x.len() as int);
+        let dq = dotp(q.mat.m()[i], x, x.len() as int);
+        let df = dotp(f.mat.m()[i], x, x.len() as int);
+        assert(q.mat.m()[i] == vscale(f.mat.m()[i], s));
+        assert(dq == df * s);
+        assert(q.bias.v()[i] == f.bias.v()[i] * s);
+        if label == 1 { assert(df * 1real == df && f.bias.v()[i] * 1real == f.bias.v()[i]) by(nonlinear_arith); }
+        else { assert(df * (0real - 1real) == -df && f.bias.v()[i] * (0real - 1real) == -f.bias.v()[i]) by(nonlinear_arith); }
+    }
+    if q.sat(x) { assert forall|j: int| 0 <= j < f.mat.nrows() implies #[trigger] hs_row(f, label, j, x) by { assert(q.row_sat(j, x)); } }
+    if hs_sat(f, label, x) { assert forall|j: int| 0 <= j < q.mat.nrows() implies #[trigger] q.row_sat(j, x) by { assert(hs_row(f, label, j, x)); } }
+}
+// a one-row decision: the input satisfies the half-space of the branch it takes
+pub proof fn lemma_hs_one(f: AffFunc, x: V)
+    requires f.mat.nrows() == 1
+    ensures 0 <= decide(&f, x) <= 1, hs_sat(f, decide(&f, x) as usize, x)
+{
+    assert((1usize << 0usize) == 1usize) by(bit_vector);
+    assert(label_val(&f, x, 0) == 0);
+    let dl = decide(&f, x);
+    assert(dl == (if f.row_sat(0, x) { 1int } else { 0int }));
+    assert forall|j: int| 0 <= j < f.mat.nrows() implies #[trigger] hs_row(f, dl as usize, j, x) by { }
+}
+pub open spec fn parts_ok(ps: Seq<Polytope>, in_dim: usize) -> bool {
+    forall|j: int| 0 <= j < ps.len() ==> (#[trigger] ps[j]).ok() && ps[j].mat.ncols() == in_dim
+}
+impl<A: Float> PolytopeG<A> {
+    // closure pipeline + ndarray::concatenate: panics when the column counts differ; ASSUMED: the intersection of the parts (bounded: bc poly)
+    #[verifier::external_body]
+    pub fn intersection_n(dim: usize, polys: &[Polytope]) -> (r: Polytope)
+        requires parts_ok(polys@, dim)
+        ensures r.ok(), r.mat.ncols() == dim,
+            forall|x: V| x.len() == dim ==> (#[trigger] r.sat(x) <==> forall|k: int| 0 <= k < polys@.len() ==> (#[trigger] polys@[k]).sat(x)),
+    { unimplemented!() }
+}
+// every input whose evaluation passes node n satisfies q
+pub open spec fn edge_covers<const K: usize>(a: AArena<K>, root: usize, n: usize, q: Polytope, in_dim: usize) -> bool {
+    forall|h: Map<usize, nat>, x: V| #![trigger reaches(a, h, root, x, n)] ranked_down(a, h) && x.len() == in_dim && reaches(a, h, root, x, n) ==> q.sat(x)
+}
+pub open spec fn path_nodes(p: Seq<(usize, usize)>, node: usize) -> Seq<usize> { Seq::new(p.len() + 1, |i: int| if i < p.len() { p[i].0 } else { node }) }
+pub proof fn lemma_path_push<N, const K: usize>(a: Arena<N, K>, p: Seq<(usize, usize)>, parent: usize, label: usize, node: usize)
+    requires path_ok(a, p, parent), a.dom().contains(parent), label < K, a[parent].children[label as int] == Some(node)
+    ensures path_ok(a, p.push((parent, label)), node)
+{
+    let p2 = p.push((parent, label));
+    assert forall|i: int| 0 <= i < p2.len() implies a.dom().contains((#[trigger] p2[i]).0) && p2[i].1 < K
+        && a[p2[i].0].children[p2[i].1 as int] == Some(if i + 1 < p2.len() { p2[i + 1].0 } else { node }) by {
+        if i < p.len() { assert(p2[i] == p[i]); if i + 1 < p.len() { assert(p2[i + 1] == p[i + 1]); } }
+    }
+    if p.len() > 0 { assert(p2[0] == p[0]); }
+}
+// an input passing `node` leaves every decision on the path through the recorded label, hence satisfies every half-space of the path
+pub proof fn lemma_path_hs<const K: usize>(a: AArena<K>, h: Map<usize, nat>, root: usize, p: Seq<(usize, usize)>, node: usize, x: V, in_dim: usize)
+    requires wf_at(a, Some(root)), K == 2, aff_shape_ok(a, in_dim), path_ok(a, p, node), p.len() > 0, ranked_down(a, h), x.len() == in_dim, reaches(a, h, root, x, node)
+    ensures forall|i: int| 0 <= i < p.len() ==> hs_sat(a[(#[trigger] p[i]).0].value.aff, p[i].1, x)
+{
+    let nodes = path_nodes(p, node);
+    assert(nodes[0] == p[0].0);
+    assert(p[0].0 == root);       // root_ok: the only parent-less node
+    assert(path_chain(a, nodes)) by {
+        assert forall|k: int| 0 <= k < nodes.len() - 1 implies a.dom().contains(#[trigger] nodes[k]) && exists|l: int| 0 <= l < K && #[trigger] a[nodes[k]].children[l] == Some(nodes[k + 1]) by {
+            assert(nodes[k] == p[k].0);
+            assert(a[p[k].0].children[p[k].1 as int] == Some(nodes[k + 1]));
+        }
+    }
+    assert(nodes.last() == node);
+    lemma_reaches_routed(a, h, nodes, x, 0);
+    assert forall|i: int| 0 <= i < p.len() implies hs_sat(a[(#[trigger] p[i]).0].value.aff, p[i].1, x) by {
+        lemma_path_hs_one(a, nodes, p, x, in_dim, i);
+    }
+}
+pub proof fn lemma_path_hs_one<const K: usize>(a: AArena<K>, nodes: Seq<usize>, p: Seq<(usize, usize)>, x: V, in_dim: usize, i: int)
+    requires K == 2, aff_shape_ok(a, in_dim), kids_unique(a), leaf_ok(a), 0 <= i < p.len(), nodes.len() == p.len() + 1, nodes[i] == p[i].0, a.dom().contains(p[i].0), p[i].1 < K,
+        a[p[i].0].children[p[i].1 as int] == Some(nodes[i + 1]),
+        0 <= decide(&a[nodes[i]].value.aff, x) < K, a[nodes[i]].children[decide(&a[nodes[i]].value.aff, x)] == Some(nodes[i + 1]),
+    ensures hs_sat(a[p[i].0].value.aff, p[i].1, x)
+{
+    let f = a[p[i].0].value.aff;
+    let dl = decide(&f, x);
+    assert(dl == p[i].1 as int) by { if dl != p[i].1 as int { assert(a[p[i].0].children[dl] != a[p[i].0].children[p[i].1 as int]); } }
+    assert(!no_kids(a[p[i].0]));
+    assert(!a[p[i].0].isleaf);
+    let n = f.mat.nrows() as usize;
+    assert(1 <= n < 16 && (1usize << n) <= 2usize ==> n == 1) by (bit_vector);
+    lemma_hs_one(f, x);
 }
 
 impl NodeState {
@@ -162,6 +270,84 @@ pub fn polyhedral_path_characterization(&self, path: &Vec<(TreeIndex, Label)>) -
         // cached verdicts are honoured
         parent_idx != 0 && self.a()[node_idx].value.state is Infeasible ==> !r,
         parent_idx != 0 && (self.a()[node_idx].value.state is Feasible || self.a()[node_idx].value.state is FeasibleWitness) ==> r,
+//@end
+
+// ---- the same decision logic with the path polytope built for real (binary trees): what an "infeasible" verdict means for inputs ----
+//@fn src/pwl/impl_infeasible_elim.rs | impl<const K: usize> AffTree<K> | polyhedral_path_characterization | as=polyhedral_path_characterization_v
+//@bodysub let mut cache = self.polytope_cache.borrow_mut(); => let mut cache: Vec<Polytope> = Vec::new();
+//@bodysub? cache.reserve(path.len()); =>
+//@bodysub for (idx, label) in path { => let mut __i: usize = 0; while __i < path.len() { let idx = &path[__i].0; let label = path[__i].1; __i += 1;
+//@bodysub -1.0, => flit(-1, 1),
+//@bodysub 1.0, => flit(1, 1),
+//@bodysub &aff.mat * factor => Mul::mul(&aff.mat, factor)
+//@bodysub &aff.bias * factor => Mul::mul(&aff.bias, factor)
+//@spec
+    requires forall|i: int| 0 <= i < path@.len() ==> self.a().dom().contains((#[trigger] path@[i]).0) && path@[i].1 < 2 && !self.a()[path@[i].0].isleaf
+            && self.a()[path@[i].0].value.aff.ok() && self.a()[path@[i].0].value.aff.mat.ncols() == self.in_dim,
+    ensures r.ok(), r.mat.ncols() == self.in_dim,
+        // the conjunction of the half-spaces of the path's edges
+        forall|x: V| x.len() == self.in_dim ==> (#[trigger] r.sat(x) <==> forall|i: int| 0 <= i < path@.len() ==> hs_sat(self.a()[(#[trigger] path@[i]).0].value.aff, path@[i].1, x)),
+//@loop 1
+            invariant
+                0 <= __i <= path@.len(), cache@.len() == __i, parts_ok(cache@, self.in_dim),
+                forall|i: int| 0 <= i < path@.len() ==> self.a().dom().contains((#[trigger] path@[i]).0) && path@[i].1 < 2 && !self.a()[path@[i].0].isleaf
+                    && self.a()[path@[i].0].value.aff.ok() && self.a()[path@[i].0].value.aff.mat.ncols() == self.in_dim,
+                forall|i: int| 0 <= i < __i ==> hs_poly(self.a()[(#[trigger] path@[i]).0].value.aff, path@[i].1, cache@[i]),
+            decreases path@.len() - __i
+//@hint after cache.push(poly_node);
+            proof { broadcast use axiom_array2_shape; }
+//@hint after let poly = Polytope::intersection_n(in_dim, cache.as_slice());
+        proof {
+            let parts = cache@;
+            assert forall|x: V| x.len() == self.in_dim implies (#[trigger] poly.sat(x) <==> forall|i: int| 0 <= i < path@.len() ==> hs_sat(self.a()[(#[trigger] path@[i]).0].value.aff, path@[i].1, x)) by {
+                assert forall|i: int| 0 <= i < path@.len() implies ((#[trigger] parts[i]).sat(x) <==> hs_sat(self.a()[path@[i].0].value.aff, path@[i].1, x)) by {
+                    lemma_hs_poly_sat(self.a()[path@[i].0].value.aff, path@[i].1, parts[i], x);
+                }
+                assert(poly.sat(x) <==> forall|k: int| 0 <= k < parts.len() ==> (#[trigger] parts[k]).sat(x));
+                if poly.sat(x) {
+                    assert forall|i: int| 0 <= i < path@.len() implies hs_sat(self.a()[(#[trigger] path@[i]).0].value.aff, path@[i].1, x) by { assert(parts[i].sat(x)); }
+                }
+                if forall|i: int| 0 <= i < path@.len() ==> hs_sat(self.a()[(#[trigger] path@[i]).0].value.aff, path@[i].1, x) {
+                    assert forall|k: int| 0 <= k < parts.len() implies (#[trigger] parts[k]).sat(x) by { assert(hs_sat(self.a()[path@[k].0].value.aff, path@[k].1, x)); }
+                }
+            }
+        }
+//@end
+
+//@fn src/pwl/impl_infeasible_elim.rs | impl<const K: usize> AffTree<K> | is_edge_feasible | as=is_edge_feasible_v
+//@bodysub tree.node_value(node_idx).unwrap() => tree.tree_node(node_idx).unwrap().value
+//@bodysub let node = self. => let node = &self.
+//@bodysub wit.iter().any(|point| poly.contains(point)) => any_contained(&poly, wit)
+//@bodysub self.polyhedral_path_characterization(&path) => self.polyhedral_path_characterization_v(&path)
+//@spec
+    requires self.tree.wf(), K == 2, self.tree.root is Some, aff_shape_ok(self.a(), self.in_dim),
+        parent_idx != 0 ==> self.a().dom().contains(node_idx) && self.a()[node_idx].parent == Some(parent_idx),
+    ensures
+        parent_idx == 0 ==> r,
+        // an "infeasible" verdict: a cached Infeasible state of the node or of its parent, or an Infeasible LP answer for a polytope that EVERY input
+        // whose evaluation passes the node satisfies (the half-spaces of its path)
+        !r ==> self.a()[node_idx].value.state is Infeasible || self.a()[parent_idx].value.state is Infeasible
+            || exists|q: Polytope| lp_status(q) is Infeasible && #[trigger] edge_covers(self.a(), self.tree.root.unwrap(), node_idx, q, self.in_dim),
+//@hint after path.push((parent_idx, label));
+        proof {
+            let a = self.a();
+            lemma_path_push(a, path@.drop_last(), parent_idx, label, node_idx);
+            assert(path@.drop_last().push((parent_idx, label)) =~= path@);
+            assert forall|i: int| 0 <= i < path@.len() implies a.dom().contains((#[trigger] path@[i]).0) && path@[i].1 < 2 && !a[path@[i].0].isleaf
+                && a[path@[i].0].value.aff.ok() && a[path@[i].0].value.aff.mat.ncols() == self.in_dim by {
+                assert(a[path@[i].0].children[path@[i].1 as int] is Some);
+                assert(!no_kids(a[path@[i].0]));
+            }
+        }
+//@hint after let poly = self.polyhedral_path_characterization_v(&path);
+        proof {
+            let a = self.a();
+            let root = self.tree.root.unwrap();
+            assert forall|h: Map<usize, nat>, x: V| #![trigger reaches(a, h, root, x, node_idx)] ranked_down(a, h) && x.len() == self.in_dim && reaches(a, h, root, x, node_idx) implies poly.sat(x) by {
+                lemma_path_hs(a, h, root, path@, node_idx, x, self.in_dim);
+            }
+            assert(edge_covers(a, root, node_idx, poly, self.in_dim));
+        }
 //@end
 }
 
